@@ -92,14 +92,17 @@ def impl_only_collect(rep, scripts, oracle_props, label):
         if pr:
             fails.append(dict(script_name=name, problem=pr[0], script=lines, settle_from=sf))
     for f in fails[:1]:
-        body, tail = f["script"][:f["settle_from"]], f["script"][f["settle_from"]:]
+        if f["settle_from"] is None:
+            body, tail = f["script"], []
+        else:
+            body, tail = f["script"][:f["settle_from"]], f["script"][f["settle_from"]:]
 
         def still(b, tail=tail):
             steps, blocks = run_impl_only([b + tail])[0]
-            return any(p["prop"] in oracle_props for p in simoracle.Trace(steps, blocks).run(settle_from=len(b)))
+            return any(p["prop"] in oracle_props for p in simoracle.Trace(steps, blocks).run(settle_from=(len(b) if tail else None)))
         sb = ddmin(body, still)
         f["shrunk"] = sb + tail
-        f["shrunk_settle_from"] = len(sb)
+        f["shrunk_settle_from"] = len(sb) if tail else None
     rep.cov[label] = dict(scripts=len(scripts), steps_total=sum(len(l) for _, l, _ in scripts),
                           rule="implementation-only scripts (no Coq model comparison), judged by the implementation-side oracles: " + label)
     rep.cov["evaluations"] = rep.cov.get("evaluations", 0) + len(scripts)
